@@ -86,4 +86,14 @@ PROPS = {
             {"name": "TestC18D", "quick": 4000, "thorough": 100000, "shards_quick": 5},
         ],
     },
+    "C19": {
+        "level": "exploration",
+        "tests": [
+            {"name": "TestC19A", "quick": 1600, "thorough": 40000, "shards_quick": 3},
+            {"name": "TestC19B", "quick": 1600, "thorough": 40000, "shards_quick": 3},
+            {"name": "TestC19C", "quick": 1200, "thorough": 24000, "shards_quick": 3},
+            {"name": "TestC19D", "quick": 1200, "thorough": 24000, "shards_quick": 4},
+            {"name": "TestC19E", "quick": 1200, "thorough": 24000, "shards_quick": 3},
+        ],
+    },
 }
